@@ -6,11 +6,7 @@ From K.Model Require Export Rendezvous.
 Import ListNotations.
 Local Open Scope N_scope.
 
-(* For execution the key IS the row of real scores the implementation computed for it:
-   entry i = order-preserving image in N of  pool[i].Score(key)  (harness/c22: c22code).
-   Node labels are pool indices 0..p-1. *)
-Definition row := list N.
-Definition tscore (n : node) (r : row) : N := nth (N.to_nat (label n)) r 0.
+(* The executed instance (Model/Rendezvous.v: row, tscore): the key is the row of real scores. *)
 
 Definition ord (ns : list node) (r : row) : list node := ordered N.ltb tscore ns r.
 Definition lab (l : list node) : list N := map label l.
